@@ -60,6 +60,10 @@ func init() {
 	core.Register(&core.Check{ID: "C04", Level: "model_checking", Run: func(c *core.Ctx) {
 		c.Cov["rule"] = "BFS over sequences of every mutating operation (Put with option forms, Expire, GetPut, Incr, Decr, IncrByFloat, Delete, Lock with/without timeout, Unlock, Lease, clock ticks, eviction pass) on one key through one entry point, replica count 2-3; after every acknowledged step the decoded copy on every listed backup owner is compared (value, expiry, timestamp, presence) with the primary copy; non-trivial = distinct states in which the key exists"
 		clustermc.RunFamily(c, "C04")
+		// evictions caused by a limit (LRU, MaxKeys / MaxInuse) on replicated clusters: Put sequences
+		// over four keys, the mirror oracle after every Put
+		c.Cov["rule"] = c.Cov["rule"].(string) + "; LRU part: BFS over Put sequences on four keys with MaxKeys / MaxInuse small enough to evict, N 2-3, R 2-3: after every Put a key that lost its primary copy to the eviction has no backup copy left, every other key's backup copies equal the primary copy"
+		clustermc.RunFamily(c, "C04lru")
 		// the client-visible half of every explored step sequence is replayed on the real stack
 		// (the white-box backup comparison itself has no public-API counterpart)
 		var traces []confx.Trace
